@@ -1,7 +1,7 @@
 """Prints the prompt for a seeded-break sub-agent: ONLY the property text + worktree instructions."""
 import json, sys
 pid = sys.argv[1]
-tests = sys.argv[2] if len(sys.argv) > 2 else "the test files of the modules you touch"
+tests = sys.argv[2] if len(sys.argv) > 2 and sys.argv[2] else "the test files of the modules you touch"
 prop = pid[:3]
 avoid = sys.argv[3] if len(sys.argv) > 3 else ''
 p = next(json.loads(l) for l in open('/verif/properties.jsonl') if json.loads(l)['id'] == prop)
